@@ -38,7 +38,7 @@ Section Scan.
         unfold last_default_type, last_default_tok. rewrite (fe_toks _ _ Fe). exact (oc_prev _ _ _ HOC).
       + change (w_lit (s_buf s1) = rs_lit rs). rewrite (fe_lit _ _ Fe). exact (oc_lit _ _ _ HOC).
       + change (w_litlen (s_buf s1) = rs_litlen rs). rewrite (fe_litlen _ _ Fe). exact (oc_litlen _ _ _ HOC).
-      + destruct Hl as [q Hq]. exists q. exact Hq.
+      + apply lines_pos_pend, lines_pos_emit. exact Hl.
     - exact Hrest.
     - change (map (tv bb) (mkTok ch ty (s_ct_byte s1) (s_ct_start s1) (s_ct_line s1) pl :: w_toks (s_buf s1)) =
               rev (map rv [mkRtok ty ch (cur_byte s + bb) pl]) ++ map (tv bb) (w_toks (s_buf s))).
@@ -57,11 +57,12 @@ Section Scan.
 
   Lemma st_eat_spec p : forall l s, c_rest (s_cur s) = l ->
     c_rest (s_cur (st_eat p s l)) = drop_while p l /\ frame (st_eat p s l) = frame s /\
-    w_nlines (s_buf (st_eat p s l)) = w_nlines (s_buf s).
+    ((forall x, p x = true -> (x =? NL) = false) -> lines_pos s -> lines_pos (st_eat p s l)).
   Proof.
     induction l as [|x r IH]; intros s Hr; cbn [st_eat drop_while]; [auto|].
-    destruct (p x); [|auto].
-    destruct (IH (st_adv s x r) eq_refl) as (A & B & C). split; [exact A|]. split; [rewrite B; reflexivity|rewrite C; reflexivity].
+    destruct (p x) eqn:Epx; [|auto].
+    destruct (IH (st_adv s x r) eq_refl) as (A & B & C). split; [exact A|]. split; [rewrite B; reflexivity|].
+    intros Hp Hl. apply C; [exact Hp|]. apply lines_pos_adv; [exact (Hp x Epx)|exact Hl].
   Qed.
 
   Lemma eat_while_spec p : forall l f s, (List.length l < f)%nat -> c_rest (s_cur s) = l ->
@@ -117,7 +118,7 @@ Section Scan.
       pose proof (frame_eq _ _ F1) as Fe. rewrite (fe_pstat _ _ Fe). exact (oc_pstat _ _ _ HOC). }
     split; [exact Hrun|].
     apply (step_scan (lex_token F msep c_amp) tt s rs _ _ CH_DEFAULT T_AMP PNone true HOC F1).
-    - destruct (oc_lines _ _ _ HOC) as [q Hq]. exists q. rewrite L1. exact Hq.
+    - apply L1; [intros x Hx; apply N.eqb_eq in Hx; subst x; reflexivity|]. apply lines_pos_start. exact (oc_lines _ _ _ HOC).
     - rewrite R1, Hr. symmetry. apply skipn_count_while.
     - exact Hrun.
   Qed.
@@ -190,7 +191,7 @@ Section Scan.
         unfold last_default_type, last_default_tok. rewrite (fe_toks _ _ Fe). exact (oc_prev _ _ _ HOC).
       + change (w_lit (s_buf s1) = rs_lit rs). rewrite (fe_lit _ _ Fe). exact (oc_lit _ _ _ HOC).
       + change (w_litlen (s_buf s1) = rs_litlen rs). rewrite (fe_litlen _ _ Fe). exact (oc_litlen _ _ _ HOC).
-      + destruct Hl as [q Hq]. exists q. exact Hq.
+      + apply lines_pos_emit. exact Hl.
     - exact Hrest.
     - change (map (tv bb) (mkTok ch ty (s_ct_byte s1) (s_ct_start s1) (s_ct_line s1) pl :: w_toks (s_buf s1)) =
               rev (map rv [mkRtok ty ch (cur_byte s + bb) pl]) ++ map (tv bb) (w_toks (s_buf s))).
@@ -254,12 +255,12 @@ Section Scan.
       rewrite run_bindP, Hhead.
       destruct r as [|c2 r'].
       + split; [lia|]. split; [apply len_ge1|]. eexists. split; [apply Hrun; [exact Hp1|reflexivity]|].
-        exact (step_simple1 text bb s rs c_star [] CH_DEFAULT T_STAR true HOC Hr).
-      + destruct (c2 =? c_star).
+        exact (step_simple1 text bb s rs c_star [] CH_DEFAULT T_STAR true ltac:(nnl) HOC Hr).
+      + destruct (c2 =? c_star) eqn:Ec2.
         * split; [lia|]. split; [apply len_ge2|]. eexists. split; [apply Hrun; [exact Hp1|reflexivity]|].
-          exact (step_simple2 text bb s rs c_star c2 r' CH_DEFAULT T_STAR2 true HOC Hr).
+          exact (step_simple2 text bb s rs c_star c2 r' CH_DEFAULT T_STAR2 true ltac:(nnl) ltac:(nnl) HOC Hr).
         * split; [lia|]. split; [apply len_ge1|]. eexists. split; [apply Hrun; [exact Hp1|reflexivity]|].
-          exact (step_simple1 text bb s rs c_star (c2 :: r') CH_DEFAULT T_STAR true HOC Hr).
+          exact (step_simple1 text bb s rs c_star (c2 :: r') CH_DEFAULT T_STAR true ltac:(nnl) HOC Hr).
     - (* at statement start: a comment through the next ';' *)
       assert (E : lexeme (c_star :: r) (cur_byte s + bb) rs =
                   ([mkRtok T_PredictedCommentStat CH_COMMENT (cur_byte s + bb) PNone], [], find_semi r 1, rs)).
@@ -272,7 +273,7 @@ Section Scan.
           rewrite find_semi_acc. lia. }
         specialize (G r). lia. }
       split; [apply Hn|]. split; [apply Hn|].
-      assert (Hl1 : lines_pos s1) by exact (oc_lines _ _ _ HOC).
+      assert (Hl1 : lines_pos s1) by (unfold s1; apply lines_pos_adv_start; [reflexivity|exact (oc_lines _ _ _ HOC)]).
       destruct (st_pc_spec r s1 eq_refl Hl1) as (R2 & F2 & L2).
       exists (st_emit (st_pc s1 r) CH_COMMENT T_PredictedCommentStat PNone).
       assert (Hhead : run false (advance_ ;; b <- lex_predicted_comment F ;;
@@ -333,7 +334,7 @@ Section Scan.
         unfold last_default_type, last_default_tok. rewrite (fe_toks _ _ Fe). exact (oc_prev _ _ _ HOC).
       + change (w_lit (s_buf s1) = rs_lit rs). rewrite (fe_lit _ _ Fe). exact (oc_lit _ _ _ HOC).
       + change (w_litlen (s_buf s1) = rs_litlen rs). rewrite (fe_litlen _ _ Fe). exact (oc_litlen _ _ _ HOC).
-      + destruct Hl as [q Hq]. exists q. exact Hq.
+      + apply lines_pos_error, lines_pos_emit. exact Hl.
     - exact Hrest.
     - change (map (tv bb) (mkTok ch ty (s_ct_byte s1) (s_ct_start s1) (s_ct_line s1) pl :: w_toks (s_buf s1)) =
               rev (map rv [mkRtok ty ch (cur_byte s + bb) pl]) ++ map (tv bb) (w_toks (s_buf s))).
@@ -378,12 +379,14 @@ Section Scan.
     cbn [st_cs].
     assert (Hstep : forall s2, s2 = (if x =? NL then st_add_line (st_adv s x r) else st_adv s x r) ->
               c_rest (s_cur s2) = r /\ frame s2 = frame s /\ lines_pos s2).
-    { intros s2 ->. destruct (x =? NL); (split; [reflexivity|]); (split; [reflexivity|]);
-        [apply lines_pos_add_line|]; apply lines_pos_adv; exact Hl. }
+    { intros s2 ->. destruct (x =? NL) eqn:Ex; (split; [reflexivity|]); (split; [reflexivity|]);
+        [apply lines_pos_nl|apply lines_pos_adv]; assumption. }
     destruct r as [|y r'].
     - destruct (Hstep _ eq_refl) as (A & B & C). cbn [st_cs find_comment_end]. auto.
     - rewrite fce_cons. destruct ((x =? c_star) && (y =? c_slash)) eqn:E.
-      + split; [reflexivity|]. split; [exact Hl|]. split; [reflexivity|]. split; [reflexivity|].
+      + apply andb_true_iff in E. destruct E as [Ex Ey]. apply N.eqb_eq in Ex, Ey. subst x y.
+        split; [reflexivity|]. split; [apply lines_pos_adv; [reflexivity|]; apply lines_pos_adv; [reflexivity|exact Hl]|].
+        split; [reflexivity|]. split; [reflexivity|].
         unfold len. cbn [List.length]. lia.
       + destruct (Hstep _ eq_refl) as (A & B & C).
         specialize (IH _ A C).
@@ -422,7 +425,8 @@ Section Scan.
     intros s rs _ HOC Hr Hf.
     set (s1 := st_adv (st_start s) c_slash (c_star :: r)).
     set (s2 := st_adv s1 c_star r).
-    assert (Hl2 : lines_pos s2) by exact (oc_lines _ _ _ HOC).
+    assert (Hl2 : lines_pos s2).
+    { unfold s2, s1. apply lines_pos_adv; [reflexivity|]. apply lines_pos_adv_start; [reflexivity|exact (oc_lines _ _ _ HOC)]. }
     pose proof (st_cs_spec r s2 eq_refl Hl2) as Hspec.
     assert (Hrun : run false (lex_token F msep c_slash) s =
                    let '(s', closed) := st_cs s2 r in
@@ -488,6 +492,76 @@ Section Scan.
   Proof.
     unfold st_adv_by, exec. cbn [andb]. split; [|split; reflexivity].
     cbn [s_cur set]. apply advance_by_loop_rest.
+  Qed.
+
+  (** [advance_by] over characters none of which is a line feed keeps the line protocol intact *)
+  Definition no_nl (l : list char) : bool := forallb (fun x => negb (x =? NL)) l.
+
+  Lemma adv_by_flags : forall k l, no_nl (firstn k l) = true -> has_nl_before_last l k = false /\ nth_is_nl l k = false.
+  Proof.
+    induction k as [|k IH]; intros l H; [destruct l; split; reflexivity|].
+    destruct l as [|x r]; [destruct k; split; reflexivity|].
+    cbn [firstn no_nl forallb] in H. apply andb_true_iff in H. destruct H as [Hx Hr]. apply negb_true_iff in Hx.
+    destruct (IH r Hr) as [A B]. destruct k as [|k].
+    - cbn [has_nl_before_last nth_is_nl]. rewrite Hx. split; reflexivity.
+    - split.
+      + cbn [has_nl_before_last]. rewrite Hx. exact A.
+      + cbn [nth_is_nl]. exact B.
+  Qed.
+
+  Lemma lines_pos_adv_by s n :
+    lines_pos s -> no_nl (firstn (N.to_nat n) (c_rest (s_cur s))) = true -> lines_pos (st_adv_by s n).
+  Proof.
+    intros [Hp [Ho Hd]] H. destruct (adv_by_flags _ _ H) as [A B]. split; [exact Hp|].
+    unfold lines_good, st_adv_by, exec. cbn [andb]. cbn [s_ghost set]. rewrite Hd, A, B. cbn [andb orb]. split; assumption.
+  Qed.
+
+  Lemma no_nl_while p : (forall x, p x = true -> (x =? NL) = false) ->
+    forall l m, no_nl (firstn m (drop_while p l)) = true -> no_nl (firstn (N.to_nat (count_while p l) + m) l) = true.
+  Proof.
+    intros Hp. induction l as [|x r IH]; intros m H; cbn [count_while drop_while] in *; [exact H|].
+    destruct (p x) eqn:Epx; [|exact H].
+    replace (N.to_nat (1 + count_while p r) + m)%nat with (S (N.to_nat (count_while p r) + m)) by lia.
+    cbn [firstn no_nl forallb]. rewrite (Hp x Epx). cbn [negb andb]. apply IH. exact H.
+  Qed.
+
+  Lemma no_nl_one x q m : (x =? NL) = false -> no_nl (firstn m q) = true -> no_nl (firstn (S m) (x :: q)) = true.
+  Proof. intros Hx H. cbn [firstn no_nl forallb]. rewrite Hx. exact H. Qed.
+
+  Lemma digit_not_nl x : is_ascii_digit x = true -> (x =? NL) = false.
+  Proof. intros H. destruct (N.eqb_spec x NL) as [->|]; [vm_compute in H; discriminate H|reflexivity]. Qed.
+  Lemma xid_continue_not_nl x : is_xid_continue x = true -> (x =? NL) = false.
+  Proof. intros H. destruct (N.eqb_spec x NL) as [->|]; [vm_compute in H; discriminate H|reflexivity]. Qed.
+  Lemma name_start_not_nl x : is_valid_unicode_sas_name_start x = true -> (x =? NL) = false.
+  Proof. intros H. destruct (N.eqb_spec x NL) as [->|]; [vm_compute in H; discriminate H|reflexivity]. Qed.
+
+  Lemma ident_char_not_nl x : ident_char x = true -> (x =? NL) = false.
+  Proof. intros H. destruct (N.eqb_spec x NL) as [->|]; [vm_compute in H; discriminate H|reflexivity]. Qed.
+
+  Lemma charformat_no_nl r n : charformat_len r = Some n -> no_nl (firstn (N.to_nat n) r) = true.
+  Proof.
+    unfold charformat_len. destruct r as [|c r].
+    - cbn. discriminate.
+    - destruct (is_valid_unicode_sas_name_start c) eqn:Ec.
+      + destruct (drop_while is_ascii_digit (drop_while is_xid_continue r)) as [|x q] eqn:E; [discriminate|].
+        destruct (x =? c_dot) eqn:Ex; [|discriminate]. intros H. apply (f_equal (fun o => match o with Some v => v | None => 0 end)) in H. cbv beta iota in H. subst n.
+        replace (N.to_nat (1 + count_while is_xid_continue r + count_while is_ascii_digit (drop_while is_xid_continue r) + 1 +
+                           count_while is_ascii_digit q))
+          with (S (N.to_nat (count_while is_xid_continue r) +
+                   (N.to_nat (count_while is_ascii_digit (drop_while is_xid_continue r)) + S (N.to_nat (count_while is_ascii_digit q) + 0))))
+          by lia.
+        apply no_nl_one; [exact (name_start_not_nl c Ec)|].
+        apply (no_nl_while is_xid_continue xid_continue_not_nl).
+        apply (no_nl_while is_ascii_digit digit_not_nl). rewrite E.
+        apply no_nl_one; [apply N.eqb_eq in Ex; subst x; reflexivity|].
+        apply (no_nl_while is_ascii_digit digit_not_nl). reflexivity.
+      + destruct (drop_while is_ascii_digit (c :: r)) as [|x q] eqn:E; [discriminate|].
+        destruct (x =? c_dot) eqn:Ex; [|discriminate]. intros H. apply (f_equal (fun o => match o with Some v => v | None => 0 end)) in H. cbv beta iota in H. subst n.
+        replace (N.to_nat (0 + count_while is_ascii_digit (c :: r) + 1 + count_while is_ascii_digit q))
+          with (N.to_nat (count_while is_ascii_digit (c :: r)) + S (N.to_nat (count_while is_ascii_digit q) + 0))%nat by lia.
+        apply (no_nl_while is_ascii_digit digit_not_nl). rewrite E.
+        apply no_nl_one; [apply N.eqb_eq in Ex; subst x; reflexivity|].
+        apply (no_nl_while is_ascii_digit digit_not_nl). reflexivity.
   Qed.
 
   Lemma char_format_len_same l : char_format_len l = charformat_len l.
@@ -576,10 +650,11 @@ Section Scan.
         rewrite run_bindP, Hhead. exact Hrun. }
       refine (step_scan _ tt s rs (st_adv_by s1 n) (1 + n) CH_DEFAULT T_CharFormat PNone true HOC _ _ _ Hfull).
       + rewrite F2. reflexivity.
-      + destruct (oc_lines _ _ _ HOC) as [q Hq]. exists q. rewrite L2. exact Hq.
+      + apply lines_pos_adv_by; [unfold s1; apply lines_pos_adv_start; [reflexivity|exact (oc_lines _ _ _ HOC)]|].
+        exact (charformat_no_nl r n En).
       + rewrite R2, Hr. replace (N.to_nat (1 + n)) with (S (N.to_nat n)) by lia. reflexivity.
     - split; [lia|]. split; [apply len_ge1|]. eexists. split.
       + apply (run_symbols_tail _ CH_DEFAULT T_DOLLAR PNone (rs_pending rs)); [exact Hp1|reflexivity].
-      + exact (step_simple1 text bb s rs 36 r CH_DEFAULT T_DOLLAR true HOC Hr).
+      + exact (step_simple1 text bb s rs 36 r CH_DEFAULT T_DOLLAR true ltac:(nnl) HOC Hr).
   Qed.
 End Scan.
